@@ -8,6 +8,7 @@ with every public property of GCodeBuilder.state (vf/statehist.compare_state).
 from vf.runner import Violation, run_hypothesis
 from vf.common import Session, apply_call
 from vf import statehist as sh
+from vf import hist
 
 ID = "C07"
 LEVEL = "exploration"
@@ -146,11 +147,10 @@ def strategy(n):
                                  "body": st.lists(sh.call_strategy(), max_size=4)})
     return st.fixed_dictionaries({
         "dp": st.integers(3, 9), "hook0": st.sampled_from([False, False, True]),
-        "calls": st.lists(st.one_of(sh.call_strategy(), sh.call_strategy(), sh.call_strategy(),
-                                    sh.call_strategy(), hook, ctx,
-                                    st.integers(0, 3).map(lambda b: {"op": "repeat", "back": b}),
-                                    st.integers(0, 3).map(lambda b: {"op": "repeat", "back": b})),
-                          min_size=1, max_size=n)})
+        "calls": st.lists(hist.weighted(
+            (8, sh.call_strategy()), (1, hook), (1, ctx),
+            (2, st.integers(0, 3).map(lambda b: {"op": "repeat", "back": b}))),
+            min_size=1, max_size=n)})
 
 
 def run_shard(ctx):
